@@ -276,7 +276,7 @@ Fixpoint run_remote (f : list Z) (r : rbf) (reqs : list (Z * Z)) (evs : list hev
           | Some b => let (r', o) := deliver r c b in o ++ run_remote f r' reqs t
           | None => [-98]
           end
-      | None => [-97]
+      | None => [-97] ++ run_remote f r reqs t
       end
   | HJ c len seed :: t => let (r', o) := deliver r c (junk seed len) in o ++ run_remote f r' reqs t
   | HS plen off :: t =>
